@@ -385,7 +385,7 @@ class Frame:
                 if nm in ('isnumberlist', 'isvectorlist') and v.kind in ('int', 'float', 'ndarray'):
                     return False
                 if nm == 'isvector' and v.kind in ('int', 'float'):
-                    dim = e.args[1] if len(e.args) > 1 else None
+                    dim = e.args[1] if len(e.args) > 1 else next((k.value for k in e.keywords if k.arg == 'dim'), None)
                     if dim is None or (isinstance(dim, ast.Constant) and dim.value in (None, 1)):
                         return True
                     if isinstance(dim, ast.Constant):
